@@ -28,7 +28,10 @@ def run(tier):
     return ec.run_property(PID, tier, jobs,
                            'generated programs paused at a random step and resumed a random number of steps later (catalogue shapes: pause at '
                            'steps 2/6/10/14, resume 4 steps later); non-trivial = distinct runs in which the execution was observed PAUSED',
-                           _nontrivial, prescribed=True)
+                           _nontrivial, prescribed=True, strict=True,
+                           model_runs=lambda d: ec.catalogue_model_runs(d, tier, ops=1, kinds=('pause', 'resume'), tag='_p1') +
+                           ec.catalogue_model_runs(d, tier, ops=2, kinds=('pause', 'resume'), tag='_pr2',
+                                                   only=('chain2', 'linear_handled', 'cmd_fail_first') + (('pair_join', 'diamond_j-1_ok') if tier == 'thorough' else ())))
 
 
 def replay(path):
